@@ -985,9 +985,15 @@ func conclude(prop, tier string, cfg *propConfig, runs []*variantRun, wall float
 		ev.Assumptions = []string{}
 	}
 	if only == "" {
-		os.MkdirAll(filepath.Join(root, "evidence"), 0o755)
+		// Evidence describes /repo itself; a run against a scratch copy
+		// (VERIF_REPO) must not overwrite it.
+		evDir := filepath.Join(root, "evidence")
+		if repo != "/repo" {
+			evDir = filepath.Join(os.TempDir(), "vctl-scratch-evidence")
+		}
+		os.MkdirAll(evDir, 0o755)
 		b, _ := json.MarshalIndent(ev, "", " ")
-		if err := os.WriteFile(filepath.Join(root, "evidence", prop+".json"), append(b, '\n'), 0o644); err != nil {
+		if err := os.WriteFile(filepath.Join(evDir, prop+".json"), append(b, '\n'), 0o644); err != nil {
 			fmt.Println("HARNESS-ERROR: cannot write evidence:", err)
 			harnessFail = true
 		}
